@@ -3,6 +3,7 @@ package vh
 import (
 	"bufio"
 	"bytes"
+	"errors"
 	"fmt"
 	"io"
 	"os"
@@ -89,7 +90,7 @@ func (r *FileRunner) Close() {
 	}
 }
 
-func atoi(s string) int { n, _ := strconv.Atoi(s); return n }
+func atoi(s string) int    { n, _ := strconv.Atoi(s); return n }
 func atou(s string) uint64 { n, _ := strconv.ParseUint(s, 10, 64); return n }
 
 func recCanon(rec *datafile.LogRecord, p *datafile.DataPos) string {
@@ -148,6 +149,37 @@ func (r *FileRunner) Exec(f []string) (res string) {
 		r.poss = append(r.poss, [2]uint32{p.BlockID, p.Offset})
 		r.written = append(r.written, writtenRec{rec.Type, k, v, rec.BatchID, p.BlockID, p.Offset, p.Size})
 		return fmt.Sprintf("%d %d %d", p.BlockID, p.Offset, p.Size)
+	case "putfail":
+		// F putfail <type> <key> <val> <batch>: the back-end refuses this one write (nothing reaches the file):
+		// the call must report the error and the file must go on as if the call had not been made
+		k, _ := ParseTok(f[3])
+		v, _ := ParseTok(f[4])
+		rec := &datafile.LogRecord{Type: byte(atoi(f[2])), Key: k, Value: v, BatchID: atou(f[5])}
+		before := r.df.Size()
+		real := r.df.ReadWriter
+		r.df.ReadWriter = failingWriter{real}
+		_, err := r.df.WriteLogRecord(rec, make([]byte, datafile.MaxLogRecordHeaderSize))
+		r.df.ReadWriter = real
+		if err == nil {
+			r.fail("a write the back-end refused was reported as successful")
+			return "ok"
+		}
+		if after := r.df.Size(); after != before {
+			r.fail("a write the back-end refused moved the logical size from %d to %d", before, after)
+		}
+		return "err io"
+	case "resetsize":
+		// F resetsize: what Backup does to a memory-mapped file (the mapping is dropped, the file cut back to
+		// its logical size); the file stays in use
+		if m, ok := r.df.ReadWriter.(*fio.MMap); ok {
+			if err := m.ResetFileSize(); err != nil {
+				return "err " + ErrName(err)
+			}
+			if st, err := os.Stat(r.path()); err == nil && st.Size() != r.df.Size() {
+				r.fail("after ResetFileSize the file has %d bytes, the logical size is %d", st.Size(), r.df.Size())
+			}
+		}
+		return ""
 	case "hint":
 		k, _ := ParseTok(f[2])
 		p := &datafile.DataPos{Fid: uint32(atou(f[3])), BlockID: uint32(atou(f[4])), Offset: uint32(atou(f[5])), Size: uint32(atou(f[6]))}
@@ -366,7 +398,11 @@ func (r *FileRunner) Exec(f []string) (res string) {
 	case "trunc":
 		r.damaged = true
 		r.Close()
-		if err := os.Truncate(r.path(), int64(atoi(f[2]))); err != nil {
+		cut := int64(atoi(f[2]))
+		if st, err := os.Stat(r.path()); err == nil && cut > st.Size() {
+			cut = st.Size() // a truncation never extends the file
+		}
+		if err := os.Truncate(r.path(), cut); err != nil {
 			return "err trunc"
 		}
 		if err := r.reopen(); err != nil {
@@ -376,6 +412,11 @@ func (r *FileRunner) Exec(f []string) (res string) {
 	}
 	return "err unknown-op"
 }
+
+// failingWriter refuses every Write; everything else goes to the real back-end.
+type failingWriter struct{ fio.ReadWriter }
+
+func (failingWriter) Write(b []byte) (int, error) { return 0, errors.New("injected write failure") }
 
 type keptVal struct {
 	live, want []byte
